@@ -324,3 +324,110 @@ Proof.
     eapply enc_fields_inj; [exact Hwf| | |exact Da|exact Db]; rewrite valid_fields_low; assumption.
   - intros E. rewrite E in Da. rewrite Da in Db. inversion Db. rewrite zlist_eqb_refl. reflexivity.
 Qed.
+
+(* ---------- records with relative names ---------- *)
+(* __eq__ completes relative names with the root and remembers that it had to: a record with a
+   relative name never equals one without, and two such records are compared on the completed
+   names. *)
+
+Definition absn (n : name) : name := if is_absolute n then n else n ++ root.
+Definition abss (v : sval) : sval := match v with VN n => VN (absn n) | _ => v end.
+Definition absv (v : val) : val :=
+  match v with VS x => VS (abss x) | VL rows => VL (map (map abss) rows) end.
+Definition absvals (vs : list val) : list val := map absv vs.
+
+Lemma is_absolute_app_root n : is_absolute (n ++ root) = true.
+Proof.
+  induction n as [|x r IH]; [reflexivity|].
+  change ((x :: r) ++ root) with (x :: (r ++ root)).
+  destruct (r ++ root) as [|y t] eqn:E.
+  - destruct r; discriminate.
+  - cbn [is_absolute]. exact IH.
+Qed.
+
+Lemma wire_labels_app c a b : wire_labels c (a ++ b) = wire_labels c a ++ wire_labels c b.
+Proof. unfold wire_labels. apply flat_map_app. Qed.
+
+Lemma to_wire_root n c w :
+  NameM.to_wire n (Some root) c = Ok w -> NameM.to_wire (absn n) None c = Ok w.
+Proof.
+  unfold NameM.to_wire, absn. destruct (is_absolute n) eqn:E.
+  - rewrite E. auto.
+  - rewrite is_absolute_app_root. cbn [is_absolute root].
+    destruct (wire_length n + wire_length root >? 255); [discriminate|].
+    rewrite wire_labels_app. auto.
+Qed.
+
+Lemma cenc_s_root low f v w : cenc_s (Some root) low f v = Ok w -> cenc_s None low f (abss v) = Ok w.
+Proof. destruct f, v; cbn; auto. apply to_wire_root. Qed.
+
+Lemma cenc_row_root low : forall fs vs w,
+  cenc_row (Some root) low fs vs = Ok w -> cenc_row None low fs (map abss vs) = Ok w.
+Proof.
+  induction fs as [|f fr IH]; intros [|v vr] w; cbn; auto; try discriminate.
+  destruct (cenc_s (Some root) low f v) as [a| |] eqn:Ea; cbn; try discriminate.
+  destruct (cenc_row (Some root) low fr vr) as [b| |] eqn:Eb; cbn; try discriminate.
+  intros E. rewrite (cenc_s_root _ _ _ _ Ea), (IH _ _ Eb). exact E.
+Qed.
+
+Lemma cenc_rows_root low row : forall rows w,
+  cenc_rows (Some root) low row rows = Ok w -> cenc_rows None low row (map (map abss) rows) = Ok w.
+Proof.
+  induction rows as [|r rr IH]; intros w; cbn; auto.
+  destruct (cenc_row (Some root) low row r) as [a| |] eqn:Ea; cbn; try discriminate.
+  destruct (cenc_rows (Some root) low row rr) as [b| |] eqn:Eb; cbn; try discriminate.
+  intros E. rewrite (cenc_row_root _ _ _ _ Ea), (IH _ eq_refl). exact E.
+Qed.
+
+Lemma cenc_f_root low f v w : cenc_f (Some root) low f v = Ok w -> cenc_f None low f (absv v) = Ok w.
+Proof.
+  destruct f as [s| | | |m a row]; destruct v as [x|rows]; cbn [cenc_f absv]; auto;
+    try apply cenc_s_root; try apply cenc_rows_root;
+    destruct x as [z|b|nn]; cbn; auto; try discriminate; destruct b; cbn; auto.
+Qed.
+
+Lemma cenc_fields_root low : forall fs vs w,
+  cenc_fields (Some root) low fs vs = Ok w -> cenc_fields None low fs (absvals vs) = Ok w.
+Proof.
+  induction fs as [|f fr IH]; intros [|v vr] w; cbn; auto; try discriminate.
+  destruct (cenc_f (Some root) low f v) as [a| |] eqn:Ea; cbn; try discriminate.
+  destruct (cenc_fields (Some root) low fr vr) as [b| |] eqn:Eb; cbn; try discriminate.
+  intros E. rewrite (cenc_f_root _ _ _ _ Ea). unfold absvals in IH. rewrite (IH _ _ Eb). exact E.
+Qed.
+
+Theorem relative_never_equals_absolute a b da db :
+  s_digest_rel a = Ok (da, true) -> s_digest_rel b = Ok (db, false) ->
+  s_eq a b = Ok false /\ s_eq b a = Ok false.
+Proof.
+  intros Ea Eb. unfold s_eq. rewrite Ea, Eb. cbn.
+  split; [destruct (negb (scls a =? scls b) || negb (styp a =? styp b))
+         |destruct (negb (scls b =? scls a) || negb (styp b =? styp a))]; reflexivity.
+Qed.
+
+(* both records have a relative name: == iff the values agree after completing the relative
+   names with the root (case-insensitively for the types that pass canonicalize on) *)
+Theorem s_eq_iff_fields_relative a b da db :
+  schema_wf (sfs a) = true ->
+  scls a = scls b -> styp a = styp b -> sfs b = sfs a -> slow b = slow a ->
+  valid_fields (sfs a) (absvals (svs a)) = true -> valid_fields (sfs a) (absvals (svs b)) = true ->
+  s_digest_rel a = Ok (da, true) -> s_digest_rel b = Ok (db, true) ->
+  (s_eq a b = Ok true <-> vals_ci (slow a) (absvals (svs a)) (absvals (svs b))).
+Proof.
+  intros Hwf Hc Ht Hfs Hlow Va Vb Ea Eb.
+  assert (Da : s_digest a (Some root) = Ok da).
+  { unfold s_digest_rel in Ea. destruct (s_digest a None) as [d|e|e]; try discriminate.
+    destruct (e =? eNeedAbsolute); [|discriminate].
+    destruct (s_digest a (Some root)); cbn in Ea; inversion Ea; reflexivity. }
+  assert (Db : s_digest b (Some root) = Ok db).
+  { unfold s_digest_rel in Eb. destruct (s_digest b None) as [d|e|e]; try discriminate.
+    destruct (e =? eNeedAbsolute); [|discriminate].
+    destruct (s_digest b (Some root)); cbn in Eb; inversion Eb; reflexivity. }
+  unfold s_eq. rewrite Hc, Ht, !Z.eqb_refl, Ea, Eb. cbn.
+  unfold s_digest in Da, Db. rewrite Hfs, Hlow in Db.
+  apply cenc_fields_root in Da, Db.
+  rewrite (cenc_fields_low None (slow a) Logic.I) in Da, Db.
+  rewrite <- lowvals_eq_iff. split.
+  - intros E. inversion E as [E']. apply zlist_eqb_eq in E'. subst db.
+    eapply enc_fields_inj; [exact Hwf| | |exact Da|exact Db]; rewrite valid_fields_low; assumption.
+  - intros E. rewrite E in Da. rewrite Da in Db. inversion Db. rewrite zlist_eqb_refl. reflexivity.
+Qed.
